@@ -122,7 +122,8 @@ EXTERNAL_CONSTANTS = {
 # truth value of the match object is available); compared with CPython's re by tools/harness/prims.py
 RE_MATCH_PATTERNS = {"^[a-zA-Z]:": "re_match_alpha_colon"}
 # functions of other modules with a PyStr.v definition: dotted name -> (Gallina function, argument types, result type)
-EXTERNAL_FUNCTIONS = {"os.path.isabs": ("py_posix_isabs", ["str"], "bool")}
+EXTERNAL_FUNCTIONS = {"os.path.isabs": ("py_posix_isabs", ["str"], "bool"),
+                      "os.path.normcase": ("py_posix_normcase", ["str"], "str")}     # posixpath.normcase: os.fspath(s)
 
 
 def is_seq(t):
@@ -146,6 +147,8 @@ WAVE2["is_relative_to"] = dict(file="helpers.py", qual="is_relative_to", kind="p
                                ret="bool", out="HelpersPath2", vararg_one="other")
 WAVE2["get_sanitized_output_path"] = dict(file="helpers.py", qual="get_sanitized_output_path", kind="pure",
                                           args={"fname": "str", "path": "optpath"}, ret="path", out="HelpersPath2", cwd=True)
+WAVE2["is_real_path_inside"] = dict(file="helpers.py", qual="is_real_path_inside", kind="pure", args={"target": "opaque", "real_root": "str"},
+                                    ret="bool", out="HelpersPath2", realpath_of="target")
 WAVE2["is_path_valid"] = dict(file="helpers.py", qual="is_path_valid", kind="pure", args={"target": "path", "parent": "optpath"},
                               ret="bool", out="HelpersPath2", cwd=True)
 for _n, _c, _r in (("_test_attribute", "test_attribute", "bool"), ("_get_unix_extension", "get_unix_extension", "optint"),
@@ -1653,6 +1656,9 @@ class FnTr:
                 self.refuse(e, "stat.%s argument type %s" % (f.attr, t))
             t1 = self.fresh()
             return p + ["do %s <- %s %s;" % (t1, fn, v)], t1, rt
+        if d == "os.path.realpath" and self.is_module("os") and self.spec.get("realpath_of") and len(args) == 1 and not e.keywords \
+                and isinstance(args[0], ast.Name) and args[0].id == self.spec["realpath_of"]:
+            return [], "real0", "str"        # what the operating system answers: an explicit parameter
         if d in EXTERNAL_FUNCTIONS and self.is_module(d.split(".")[0]):
             fn, ats, rt = EXTERNAL_FUNCTIONS[d]
             if len(args) != len(ats):
@@ -1688,6 +1694,11 @@ class FnTr:
             if ta != "str":
                 self.refuse(e, "lstrip argument type " + ta)
             return p + pa, "(py_lstrip %s %s)" % (v, a), "str"
+        if t == "str" and f.attr == "rstrip" and len(args) == 1 and not e.keywords and self.spec.get("out") == "HelpersPath2":
+            pa, a, ta = self.expr(args[0])
+            if ta != "str":
+                self.refuse(e, "rstrip argument type " + ta)
+            return p + pa, "(py_rstrip %s %s)" % (v, a), "str"
         if t == "match2" and f.attr == "group" and len(args) == 1 and self.const_int(args[0]) in (1, 2):
             return p, "(%s %s)" % ("fst" if self.const_int(args[0]) == 1 else "snd", v), "str"
         if t == "str" and f.attr in ("startswith", "endswith") and len(args) == 1:
@@ -3033,7 +3044,17 @@ class FnTr:
             self.refuse(node, "parameter kinds")
         if list(self.argtys.keys()) != params:
             self.refuse(node, "parameter list %r differs from the whitelist %r" % (params, list(self.argtys)))
-        sig = " ".join("(%s : %s)" % (p, coq_ty(self.argtys[p])) for p in params)
+        rp_of = self.spec.get("realpath_of")
+        if rp_of:
+            # the parameter is only handed to os.path.realpath: the generated function takes that result (real0 : str) instead
+            uses = [n for n in ast.walk(node) if isinstance(n, ast.Name) and n.id == rp_of]
+            calls = [n for n in ast.walk(node) if isinstance(n, ast.Call) and self.dotted(n.func) == "os.path.realpath" and len(n.args) == 1
+                     and not n.keywords and n.args[0] in uses]
+            if rp_of not in params or len(uses) != 1 or len(calls) != 1 or "real0" in self.local_names() or "real0" in params:
+                self.refuse(node, "the parameter %s must be used exactly once, as os.path.realpath(%s)" % (rp_of, rp_of))
+            self.ty.pop(rp_of, None)
+            self.ty["real0"] = "str"
+        sig = " ".join("(%s : %s)" % (("real0", "list Z") if p == rp_of else (p, coq_ty(self.argtys[p]))) for p in params)
         if self.kind == "method":
             for p, t in self.spec["selfargs"].items():
                 self.ty[p] = t
